@@ -99,11 +99,21 @@ Print Assumptions escape_token_stable.
    ASCII characters are encodable.  Characters of l: nmstart_plain / nmchar_plain = ASCII name characters or any
    code point >= 128; str_plain q = anything but newline, backslash and the quote.
 
-   Full statement for IDENT (any identifier) is NOT proved: an identifier without leading dash whose FIRST
-   character is unencodable (spelled backslash-hex) or is u/U competes with the URI / UNICODE-RANGE productions;
-   that case, FUNCTION and URI tokens are covered by the closed Examples below, the correspondence (K stream) and
-   the oracle only.                                                                                           *)
-Theorem escaped_ident_first_token_partial : forall encc, (forall c, (c < 128)%N -> encodable encc c = true) ->
+   IDENT holds for ANY identifier (first character escaped, u or U included) provided neither an opening
+   parenthesis nor a plus sign follows (C09's ident_lexeme_full; u+ would start a UNICODE-RANGE); a second variant
+   allows a following plus sign when the identifier has a leading dash or an encodable first character other
+   than u/U.  FUNCTION and URI tokens are not covered by theorems here: closed Examples below, the correspondence
+   (K stream) and the oracle only.                                                                             *)
+Theorem escaped_ident_first_token : forall encc, (forall c, (c < 128)%N -> encodable encc c = true) ->
+  forall d c0 cs follow dc prev,
+  nmstart_plain c0 = true -> forallb nmchar_plain cs = true -> valid (c0 :: cs) ->
+  hd_not nm_cont follow = true -> hd_not (is_c 40) follow = true -> hd_not (is_c 43) follow = true ->
+  let l := ident_chars d c0 cs in
+  first_token dc prev (escape_unenc encc l ++ follow) = Some (s "IDENT", l, length (escape_unenc encc l)).
+Proof. exact escaped_ident_first_token_full_lemma. Qed.
+Print Assumptions escaped_ident_first_token.
+
+Theorem escaped_ident_first_token_before_plus : forall encc, (forall c, (c < 128)%N -> encodable encc c = true) ->
   forall d c0 cs follow dc prev,
   nmstart_plain c0 = true -> forallb nmchar_plain cs = true -> valid (c0 :: cs) ->
   hd_not nm_cont follow = true -> hd_not (is_c 40) follow = true ->
@@ -111,7 +121,7 @@ Theorem escaped_ident_first_token_partial : forall encc, (forall c, (c < 128)%N 
   let l := ident_chars d c0 cs in
   first_token dc prev (escape_unenc encc l ++ follow) = Some (s "IDENT", l, length (escape_unenc encc l)).
 Proof. exact escaped_ident_first_token_lemma. Qed.
-Print Assumptions escaped_ident_first_token_partial.
+Print Assumptions escaped_ident_first_token_before_plus.
 
 Theorem escaped_hash_first_token : forall encc, (forall c, (c < 128)%N -> encodable encc c = true) ->
   forall cs follow dc prev,
@@ -157,7 +167,8 @@ Theorem escaped_comment_first_token : forall encc, (forall c, (c < 128)%N -> enc
 Proof. exact escaped_comment_first_token_lemma. Qed.
 Print Assumptions escaped_comment_first_token.
 
-(* non-vacuity, and the cases the theorems above leave out (escape-first identifier, FUNCTION, URI), closed *)
+(* non-vacuity (incl. an identifier whose first character is escaped), and the classes the theorems above leave out
+   (FUNCTION, URI), closed *)
 Example first_token_ex :
   let E := escape_unenc ascii_encc in
   first_token true None (E (s "a" ++ [233; 1076]%N) ++ s " b") = Some (s "IDENT", s "a" ++ [233; 1076]%N, 10%nat) /\
